@@ -17,6 +17,7 @@
 -/
 import Upnp.Lemmas.C15Burst
 import Upnp.Lemmas.C15Handlers
+import Upnp.Lemmas.C15Device
 namespace Upnp.C15
 
 /-- The key arithmetic read from `EventSubscriber.get_next_seq` (regenerated from the source on
@@ -109,6 +110,23 @@ theorem init_rel (c : Cfg) (hb : 0 ≤ c.base) :
 theorem c15_history (c : Cfg) (hb : 0 ≤ c.base) (ops : List Op) :
     ok (c.vars.map (·.evented)) (c.vars.map (·.rate)) (c.vars.map (·.default)) (run (init c) ops) = true :=
   run_ok ops (init c) _ (init_rel c hb)
+
+/-- **Several services on one device.**  For every device (any number of services, each with its own
+    configuration) and every device history — operations addressed to any service, interleaved in any way, and
+    clock advances — what concerns service k in the device trace is accepted by the judge for service k. -/
+theorem c15_device (cs : List Cfg) (hb : ∀ c ∈ cs, 0 ≤ c.base) (ops : List DevOp) (k : Nat) (c : Cfg)
+    (hk : cs[k]? = some c) :
+    ok (c.vars.map (·.evented)) (c.vars.map (·.rate)) (c.vars.map (·.default))
+      (project k (runDev (cs.map init) ops)) = true := by
+  rw [project_runDev ops (cs.map init) k (init c) (by rw [List.getElem?_map, hk]; rfl)]
+  exact c15_history c (hb c (List.mem_of_getElem? hk)) (opsFor k ops)
+
+/-- **Frame**: a request or an assignment on service k leaves every other service's state (variables,
+    subscriber list, keys, timers) untouched and sends nothing on its behalf — in particular no NOTIFY to
+    the other service's subscribers. -/
+theorem service_frame (d : Device) (k i : Nat) (o : Op) (h : i ≠ k) :
+    (stepDev d (.svc k o)).1[i]? = d[i]? ∧ project i (stepDev d (.svc k o)).2 = [] :=
+  svc_frame d k i o h
 
 /-- the fuel of `advance` is never the reason it stops: after any clock advance no timer is overdue -/
 theorem no_overdue_timer (m : State) (j : Mon) (dt : Nat) (h : Rel m j) (hn : j.now = m.now) :
